@@ -64,6 +64,49 @@ struct Hist {
     restarts: u32,
     n_files: u32,
     hist_no: u64,
+    /// the history started from a zone FILE through `try_from_config` (`beginf`): no model side
+    no_model: bool,
+}
+
+/// zone files for the first start (`try_from_config`: load the file, create the journal, dump) — with what a zone file may
+/// hold and an UPDATE may not: glue of an out-of-zone name server, a stray out-of-zone record, DS at a delegation, wildcards
+const ZONE_FILES: [&str; 2] = [
+    "@ 3600 IN SOA ns1.example.com. admin.example.com. 100 3600 600 86400 300\n\
+     @ 3600 IN NS ns1.example.com.\n\
+     @ 3600 IN NS ns.example.net.\n\
+     ns.example.net. 300 IN A 198.51.100.53\n\
+     other.org. 300 IN TXT \"stray\"\n\
+     a 300 IN A 10.0.0.1\n\
+     a 300 IN TXT \"t1\"\n\
+     alias 300 IN CNAME a\n\
+     sub 300 IN NS ns.sub\n\
+     sub 300 IN DS 12345 8 2 00112233445566778899aabbccddeeff00112233445566778899aabbccddeeff\n\
+     ns.sub 300 IN A 10.0.0.9\n\
+     *.w 300 IN TXT \"wild\"\n\
+     mx 300 IN MX 10 a\n",
+    "@ 3600 IN SOA ns1.example.com. admin.example.com. 4294967295 3600 600 86400 300\n\
+     @ 3600 IN NS ns1.example.com.\n\
+     @ 300 IN MX 10 mail\n\
+     @ 300 IN TXT \"apex\"\n\
+     @ 300 IN A 10.0.0.7\n\
+     @ 300 IN AAAA 2001:db8::7\n\
+     @ 300 IN CAA 0 issue \"letsencrypt.org\"\n\
+     mail 300 IN A 10.0.0.8\n\
+     * 300 IN A 10.0.0.9\n\
+     _sip._tcp 300 IN SRV 1 2 5060 mail\n",
+];
+
+/// the TSIG key of `c12::signer()` as configuration: a key file next to the journal (so that a restarted server still
+/// authorises the signed updates)
+fn tsig_keys(dir: &Path) -> Vec<hickory_server::store::sqlite::TsigKeyConfig> {
+    let key_file = dir.join("update-key.tsig");
+    let _ = std::fs::write(&key_file, b"0123456789abcdef0123456789abcdef");
+    vec![hickory_server::store::sqlite::TsigKeyConfig {
+        name: "update-key.".to_string(),
+        key_file,
+        algorithm: hickory_proto::rr::rdata::tsig::TsigAlgorithm::HmacSha256,
+        fudge: 300,
+    }]
 }
 
 fn count_rows(path: &Path) -> usize {
@@ -92,7 +135,7 @@ fn recover(rt: &tokio::runtime::Runtime, origin: &Name, journal: &Path) -> Resul
         zone_path: journal.with_extension("no-such-zone-file"),
         journal_path: journal.to_path_buf(),
         allow_update: true,
-        tsig_keys: vec![],
+        tsig_keys: tsig_keys(journal.parent().unwrap_or(Path::new("."))),
     };
     match catch(|| rt.block_on(SqliteZoneHandler::try_from_config(origin.clone(), ZoneType::Primary, AxfrPolicy::Deny, false, None, &cfg, None))) {
         Ok(Ok(h)) => {
@@ -247,6 +290,7 @@ impl Hist {
             Ok(s) => format!("rec ok {} {} {}", s.serial, count_rows(&dst), s.dump),
             Err(_) => "rec err".to_string(),
         };
+        let out = if self.no_model { "~".to_string() } else { out };
         let idx = rec.case(line, out);
         rec.stat(if restart { "op.restart" } else { "op.cut" });
         self.judge_cut(k, &got, rec, idx);
@@ -267,12 +311,15 @@ impl Hist {
                         self.boundaries = vec![Boundary { rows: rows_after.len(), snap: s.clone(), n_msgs, acked: true }];
                     }
                 }
-                // a twin that never restarted: initial zone + the surviving messages
-                let twin = c12::new_handler(&self.origin, &self.initial);
-                for (p, u) in &self.msgs {
-                    let _ = c12::run_update(&self.rt, &twin, p, u);
+                // a twin that never restarted: initial zone + the surviving messages (a zone-file history has no record list
+                // to build one from: there the boundary comparison alone judges)
+                if !self.no_model {
+                    let twin = c12::new_handler(&self.origin, &self.initial);
+                    for (p, u) in &self.msgs {
+                        let _ = c12::run_update(&self.rt, &twin, p, u);
+                    }
+                    self.twin = Some(twin);
                 }
-                self.twin = Some(twin);
                 self.h = Some(h);
                 self.live = dst;
                 self.restarts += 1;
@@ -320,22 +367,111 @@ fn exec(line: &str, hist: &mut Hist, rec: &mut Recorder) {
             hist.restarts = 0;
             hist.n_files = 0;
             hist.hist_no += 1;
+            hist.no_model = false;
         }
         ["end"] => {
             rec.case(line.to_string(), "end".into());
             hist.h = None;
             hist.twin = None;
         }
-        ["upd", rest @ ..] => {
+        ["beginf", which] => {
+            // first start from a zone file: the real `try_from_config` loads it, creates the journal and dumps the zone
+            hist.h = None;
+            hist.twin = None;
+            let _ = std::fs::remove_dir_all(&hist.dir);
+            std::fs::create_dir_all(&hist.dir).expect("journal dir");
+            let origin = Name::from_ascii("example.com.").unwrap();
+            let zone_path = hist.dir.join("example.com.zone");
+            hist.live = hist.dir.join("live.sqlite");
+            let text = ZONE_FILES[which.parse::<usize>().unwrap_or(0) % ZONE_FILES.len()];
+            let start = |zone: &Path, journal: &Path| {
+                let cfg = SqliteConfig { zone_path: zone.to_path_buf(), journal_path: journal.to_path_buf(), allow_update: true, tsig_keys: tsig_keys(journal.parent().unwrap_or(Path::new("."))) };
+                catch(|| hist.rt.block_on(SqliteZoneHandler::try_from_config(origin.clone(), ZoneType::Primary, AxfrPolicy::Deny, false, None, &cfg, None)))
+            };
+            rec.impl_only += 1;
+            let idx = rec.case(line.to_string(), "~".into());
+            rec.stat("op.beginf");
+            // neither a zone file nor a journal: an error, not a panic and not an empty zone
+            match start(&zone_path, &hist.live) {
+                Ok(Err(_)) => {}
+                Ok(Ok(_)) => rec.fail(idx, "try_from_config produced a zone from neither a zone file nor a journal".to_string(), ""),
+                Err(p) => rec.fail(idx, format!("try_from_config panicked without zone file and journal: {p}"), ""),
+            }
+            let _ = std::fs::remove_file(&hist.live);
+            // a zone file that does not parse: an error, and no journal left behind that the next start would take for the zone
+            std::fs::write(&zone_path, "@ 3600 IN SOA ns1.example.com. admin.example.com. 1 2 3\n@ IN A not-an-address\n").expect("zone file");
+            match start(&zone_path, &hist.live) {
+                Ok(Err(_)) => {
+                    if hist.live.exists() && count_rows(&hist.live) > 0 {
+                        rec.fail(idx, "a start that failed on the zone file left journal rows behind".to_string(), "");
+                    }
+                }
+                Ok(Ok(_)) => rec.fail(idx, "try_from_config accepted a zone file that does not parse".to_string(), ""),
+                Err(p) => rec.fail(idx, format!("try_from_config panicked on a bad zone file: {p}"), ""),
+            }
+            let _ = std::fs::remove_file(&hist.live);
+            std::fs::write(&zone_path, text.replace("     ", "")).expect("zone file");
+            let h = match start(&zone_path, &hist.live) {
+                Ok(Ok(h)) => h,
+                Ok(Err(e)) => {
+                    rec.fail(idx, format!("the first start from the zone file failed: {e}"), "");
+                    return;
+                }
+                Err(p) => {
+                    rec.fail(idx, format!("the first start from the zone file panicked: {p}"), "");
+                    return;
+                }
+            };
+            if let Some(j) = hist.rt.block_on(h.journal()).as_ref() {
+                fast_pragmas(j);
+            }
+            let s = c12::snapshot(&hist.rt, &h);
+            if !s.rrs.iter().any(|r| r.rtype == c12::T_SOA) {
+                rec.fail(idx, "the zone loaded from the file has no SOA".to_string(), "");
+            }
+            let rows = count_rows(&hist.live);
+            hist.initial = vec![];
+            hist.origin = origin;
+            hist.msgs.clear();
+            hist.boundaries = vec![Boundary { rows, snap: s, n_msgs: 0, acked: true }];
+            hist.h = Some(h);
+            hist.restarts = 0;
+            hist.n_files = 0;
+            hist.hist_no += 1;
+            hist.no_model = true;
+            // the zone file is gone from now on: every later start has only the journal
+            let _ = std::fs::remove_file(&zone_path);
+        }
+        ["upd", rest @ ..] | ["updf", rest @ ..] => {
             let (Some(h), Some((p, u))) = (hist.h.as_ref(), c12::split_pu(rest)) else {
                 rec.stat("skipped.unparsable-case");
                 return;
             };
-            let (stage, res) = c12::run_update(&hist.rt, h, &p, &u);
+            // `updf`: the same message through the real `ZoneHandler::update` (TSIG-signed on the wire)
+            let full = t[0] == "updf";
+            let (stage, res) = if full {
+                match c12::run_update_full(&hist.rt, h, &hist.origin, &p, &u) {
+                    Some(r) => (if r.starts_with("ok") { "apply" } else { "full" }, r),
+                    None => {
+                        rec.stat("skipped.unencodable-message");
+                        return;
+                    }
+                }
+            } else {
+                c12::run_update(&hist.rt, h, &p, &u)
+            };
             let after = c12::snapshot(&hist.rt, h);
             let rows = count_rows(&hist.live);
-            let idx = rec.case(line.to_string(), format!("{stage} {res} {} {} {}", after.serial, rows, after.dump));
-            rec.stat("op.upd");
+            let out = if hist.no_model {
+                rec.impl_only += 1;
+                "~".to_string()
+            } else if full {
+                format!("full {res} {} {} {}", after.serial, rows, after.dump)
+            } else {
+                format!("{stage} {res} {} {} {}", after.serial, rows, after.dump)
+            };
+            let idx = rec.case(line.to_string(), out);
+            rec.stat(if full { "op.updf" } else { "op.upd" });
             rec.stat(&format!("upd.{stage}.{res}"));
             let prev_rows = hist.boundaries.last().map(|b| b.rows).unwrap_or(0);
             rec.stat(&format!("upd.rows-appended.{}", rows.saturating_sub(prev_rows).min(6)));
@@ -347,7 +483,7 @@ fn exec(line: &str, hist: &mut Hist, rec: &mut Recorder) {
                 if let Some(tw) = hist.twin.as_ref().filter(|_| u.iter().all(c12::row_fits)) {
                     let (ts, tr) = c12::run_update(&hist.rt, tw, &p, &u);
                     let tsnap = c12::snapshot(&hist.rt, tw);
-                    if ts != stage || tr != res {
+                    if (ts != stage && !full) || tr != res {
                         rec.fail(idx, format!("after recovery the update answered {stage}/{res}; without a restart it answers {ts}/{tr}"), "");
                     } else if !same_state(&tsnap, &after) {
                         rec.fail(idx, format!("after recovery the update left a different zone than without a restart (serial {} vs {})", after.serial, tsnap.serial), "");
@@ -419,6 +555,10 @@ fn gen_msg(rng: &mut Rng) -> String {
         if let Some(u) = m.find(" U") {
             m = format!("upd P{}", &m[u..]);
         }
+    }
+    // one in four through the real `ZoneHandler::update` (signed wire message)
+    if rng.chance(1, 4) {
+        m = m.replacen("upd ", "updf ", 1);
     }
     m
 }
@@ -537,6 +677,19 @@ fn directed_zones() -> Vec<Vec<String>> {
     let origin = name_tok(&Name::from_ascii("example.com.").unwrap());
     let small = |l: &str, i: u8| tok(&format!("{l}.example.com."), 1, 1, 300, &format!("x0a0000{i:02x}"));
     let mut out = vec![];
+    for which in 0..ZONE_FILES.len() {
+        out.push(vec![
+            format!("beginf {which}"),
+            format!("upd P U {} {}", small("b", 2), tok("a.example.com.", 16, 255, 0, "-")),
+            format!("updf P U {}", small("c", 3)),
+            "cutall".into(),
+            "restartb 0".into(),
+            format!("upd P U {} {}", small("d", 4), tok("sub.example.com.", 255, 255, 0, "-")),
+            "cutall".into(),
+            "restartb 0".into(),
+            "end".into(),
+        ]);
+    }
     for zone in [every_type_zone(), out_of_zone_zone()] {
         out.push(vec![
             format!("beginj {origin} {}", zone.join(" ")),
@@ -610,6 +763,7 @@ pub fn run(o: &Opts, rec: &mut Recorder) {
         restarts: 0,
         n_files: 0,
         hist_no: 0,
+        no_model: false,
     };
     for l in &o.pre_lines {
         exec(l, &mut hist, rec);
